@@ -344,6 +344,11 @@ fn replay(case: &str) {
         }
     };
     let mut run = Run::new("c16", "/tmp/vh-c16-replay");
+    if agent::replay(&mut run, case) {
+        for f in &run.fails { println!("ORACLE-FAIL {} {}", f.signature, f.detail); }
+        if run.fails.is_empty() { println!("no oracle failure"); }
+        return;
+    }
     match stream.as_str() {
         "enc" => { let s = Spec::parse(&rest).expect("bad enc case"); do_enc(&mut run, &s);
                    println!("impl: {}", s.encode_rustrtc().map(|b| hex(&b)).unwrap_or_else(|e| format!("error {e}")));
